@@ -254,13 +254,15 @@ fn bfs(args: &Args, rep: &Report, cache: CacheCfg, uni: &Universe, depth: usize,
                 if d > 0 {
                     trans.fetch_add(1, std::sync::atomic::Ordering::Relaxed);
                 }
+                // op contracts are properties of TRANSITIONS: judged before deduplication (a transition into
+                // an already known state must not escape judgement)
+                for (k, v) in vs {
+                    rep.violation(format!("{vname}/op_contract/{k}"), json!({"history": hshow(), "detail": v}));
+                }
                 if !seen.lock().unwrap().insert(h128(&fp)) {
                     return;
                 }
                 new_states.fetch_add(1, std::sync::atomic::Ordering::Relaxed);
-                for (k, v) in vs {
-                    rep.violation(format!("{vname}/op_contract/{k}"), json!({"history": hshow(), "detail": v}));
-                }
                 // "begin while open is refused and changes nothing" / "rollback discards everything":
                 // both are visible in the fingerprint of the successor, checked via the model in (2)
                 // (2) the read suite on a fresh replay vs StoreModel's view
